@@ -34,7 +34,7 @@ func init() {
 		ID:        "C16",
 		Level:     "exploration",
 		Technique: "behavioural schema check on a fake Postgres with real identifier, type and NULL-distinct unique-index semantics: generated integration sets are validated, migrated and indexed; the first pass must insert everything, a second insert of the same blocks (positions removed through SQL) must fail with 23505; the printed schema (config.DDL) is applied to a second server and must hold every written column; columns are removed from otherwise valid configurations and validation must reject them",
-		Rule: "case kinds by index: single integration (log/tx/trace, arrays giving several rows per log, several matching logs and traces per transaction, one or two sources, default / user-named identity fields / user-supplied unique key, extra columns, notifications); 2–3 integrations sharing a table with different shapes and orders (and a same-shape control); column removal / ghost notification column; tables existing before boot with fewer columns (created by SQL, or by an earlier, smaller configuration of the same integration); reserved-word column names and (one case in four of that kind) mixed-case names. " +
+		Rule: "case kinds by index: single integration (log/tx/trace, arrays giving several rows per log, several matching logs and traces per transaction, one or two sources, default / user-named identity fields / identity columns declared in table.columns without a block entry (each identity column × each shape) / user-supplied unique key, extra columns, notifications); 2–3 integrations sharing a table with different shapes and orders (and a same-shape control); column removal / ghost notification column; tables existing before boot with fewer columns (created by SQL, or by an earlier, smaller configuration of the same integration); reserved-word column names and (one case in four of that kind) mixed-case names. " +
 			"signature = (kind, modes, identity variant, array rows, outcome classes); trivial = no row written in the first pass.",
 		Assumptions: []string{
 			"fakepg implements PostgreSQL identifier folding/quoting, type names, ADD COLUMN IF NOT EXISTS and unique indexes with NULLs distinct; CREATE INDEX IF NOT EXISTS with an existing name is skipped BEFORE its column list is checked (real PostgreSQL checks the columns first and would fail the migration where a key column does not exist yet: the more permissive reading is simulated)",
@@ -56,7 +56,7 @@ func init() {
 		CaseTimeoutS:     180,
 		MinObs: func(tier string) map[string]int64 {
 			return map[string]int64{"scenarios": 700, "first_pass_rows": 15000, "reinsert_attempts": 500, "reinsert_collided": 300, "array_row_logs": 100,
-				"validation_removals": 300, "validation_rejected": 200, "shared_table_scenarios": 150, "print_schema_checked": 600, "existing_table_scenarios": 150, "existing_table_migrated": 40, "special_name_scenarios": 80}
+				"identity_columns_checked": 2000, "declared_only_scenarios": 100, "validation_removals": 300, "validation_rejected": 200, "shared_table_scenarios": 150, "print_schema_checked": 600, "existing_table_scenarios": 150, "existing_table_migrated": 40, "special_name_scenarios": 80}
 		},
 	})
 }
@@ -118,7 +118,8 @@ func eventColumns(fs []refmodel.Field, top bool, out *[]*refmodel.Field, nested 
 type c16Opts struct {
 	kind      string
 	mode      int
-	identity  string // default | user-named | renamed-binding-free
+	identity  string // default | user-named | no-renamed-binding | declared-only
+	declare   int    // declared-only: rotation index of the identity column that is certainly declared
 	userUniq  bool
 	arrays    bool
 	notify    bool
@@ -188,8 +189,32 @@ func c16Decl(r *vk.RNG, k int, table string, srcs []string, o c16Opts) *model.De
 			}
 		}
 	}
+	if o.identity == "declared-only" {
+		// identity columns listed in table.columns WITHOUT a block entry: ValidateFix
+		// must still select the field (otherwise the column is never written)
+		ids := c16Auto(d)
+		sel := map[string]bool{}
+		for _, b := range d.Block {
+			sel[b.Name] = true
+		}
+		must := ids[o.declare%len(ids)]
+		for _, n := range ids {
+			if sel[n] || (n != must && !r.Chance(1, 3)) {
+				continue
+			}
+			d.ExtraCols = append(d.ExtraCols, model.Column{Name: n, Type: c16AutoType[n]})
+		}
+	}
 	if o.userUniq {
+		// the user's own key names the columns the identity fields are stored in
 		key := c16Auto(d)
+		for i, id := range key {
+			for _, b := range d.Block {
+				if b.Name == id {
+					key[i] = b.Column
+				}
+			}
+		}
 		vk.Shuffle(r, key)
 		d.Unique = [][]string{key}
 	}
@@ -411,6 +436,28 @@ func (s *c16Scen) lacks(d *model.Decl) []string {
 	return res
 }
 
+// declaredLacking: identity columns the user declared in table.columns (without a
+// block entry) that no unique index of the table holds and whose field the fixed
+// configuration does not select either.
+func (s *c16Scen) declaredLacking(d *model.Decl, lacking []string) (res []string) {
+	selected := map[string]bool{}
+	for _, g := range s.env.Conf.Integrations {
+		if g.Name == d.Name {
+			for _, bd := range g.Block {
+				selected[bd.Name] = true
+			}
+		}
+	}
+	for _, n := range lacking {
+		for _, ec := range d.ExtraCols {
+			if ec.Name == n && !selected[n] {
+				res = append(res, n)
+			}
+		}
+	}
+	return
+}
+
 func (s *c16Scen) violate(key string, extra map[string]any, format string, args ...any) {
 	s.c.Violate(key, merge(s.detail, extra), format, args...)
 }
@@ -461,6 +508,11 @@ func (s *c16Scen) firstPass() (done map[string]bool) {
 						case strings.HasPrefix(cause, "shared-table") || strings.HasPrefix(cause, "existing-table"):
 							s.violate(cause, merge(ex, merge(info, map[string]any{"consequence": "two different rows of the first pass collide (23505): the integration can never index"})),
 								"%s: different rows of %s collide on the table's unique key %v (its own key would be %v)", cause, name, info["unique_indexes_of_table"], info["key_generated_for_integration"])
+						case len(s.declaredLacking(d, lk)) > 0:
+							for _, col := range s.declaredLacking(d, lk) {
+								s.violate("identity-column-declared-but-never-written:"+col, merge(ex, merge(info, map[string]any{"consequence": "the declared column is not part of the generated key: two different rows of the first pass collide (23505)"})),
+									"identity column %s is declared in table.columns (no block entry); ValidateFix neither selects the field nor keys on it: rows of %s collide on %v", col, name, info["unique_indexes_of_table"])
+							}
 						default:
 							s.violate("distinct-rows-collide:key-lacks="+strings.Join(lk, "+"), merge(ex, info),
 								"two different rows of the first pass of %s (%s) collide on the generated unique key %v", name, d.Mode(), info["unique_indexes_of_table"])
@@ -480,6 +532,47 @@ func (s *c16Scen) firstPass() (done map[string]bool) {
 		}
 	}
 	return done
+}
+
+// identityWritten: every identity column the shape needs holds a value in the
+// rows of the integration ("the identity columns needed to tell rows apart are
+// added automatically" — a column that exists but is never written tells nothing apart).
+func (s *c16Scen) identityWritten() {
+	for _, t := range s.env.Tasks {
+		in := t.VerifInfo()
+		d := s.spec.Decl(in.IGName)
+		n, _ := pairRowCount(s.env.PG, d.Table, in.SrcName, in.IGName)
+		if n == 0 {
+			continue
+		}
+		declared := map[string]bool{}
+		for _, c := range d.ExtraCols {
+			declared[c.Name] = true
+		}
+		var cols []string
+		bound := map[string]string{}
+		for _, id := range c16Auto(d) {
+			col := id
+			for _, b := range d.Block {
+				if b.Name == id {
+					col = b.Column
+				}
+			}
+			cols = append(cols, col)
+			bound[col] = id
+		}
+		s.c.Obs("identity_columns_checked", int64(len(cols)))
+		for _, col := range nullKeyColumns(s.env.PG, d.Table, in.SrcName, in.IGName, cols) {
+			id := bound[col]
+			ex := map[string]any{"pair": in.SrcName + "/" + in.IGName, "mode": d.Mode().String(), "column": col, "identity_field": id, "rows": n,
+				"unique_indexes_of_table": uniqueKeys(s.env.PG, d.Table), "declared_in_table_columns_without_block_entry": declared[id]}
+			if declared[id] {
+				s.violate("identity-column-declared-but-never-written:"+id, ex, "identity column %s of %s is declared in table.columns (no block entry) and stays NULL in all %d rows of %s: the field is never selected", col, d.Table, n, in.IGName)
+			} else {
+				s.violate("identity-column-never-written:"+id, ex, "identity column %s of %s stays NULL in all %d rows of %s", col, d.Table, n, in.IGName)
+			}
+		}
+	}
 }
 
 // reinsert removes the pair's positions and runs the step again: it must fail with 23505.
@@ -648,6 +741,7 @@ func (s *c16Scen) run() {
 		total += n
 	}
 	c.Obs("first_pass_rows", int64(total))
+	s.identityWritten()
 	for _, t := range env.Tasks {
 		in := t.VerifInfo()
 		if done[in.SrcName+"/"+in.IGName] {
@@ -673,9 +767,22 @@ func c16Run(c *vk.Case) {
 	if r.Chance(1, 4) {
 		srcs = append(srcs, namePoolSrc[1])
 	}
-	ids := []string{"default", "user-named", "no-renamed-binding", "default"}
+	ids := []string{"default", "user-named", "no-renamed-binding", "declared-only", "default"}
 	mkOpts := func() c16Opts {
-		return c16Opts{kind: kind, mode: r.Intn(3), identity: vk.Pick(r, ids), userUniq: r.Chance(1, 6), arrays: r.Bool(), notify: r.Chance(1, 3), extraCols: r.Chance(1, 3)}
+		o := c16Opts{kind: kind, mode: r.Intn(3), identity: vk.Pick(r, ids), userUniq: r.Chance(1, 6), arrays: r.Bool(), notify: r.Chance(1, 3), extraCols: r.Chance(1, 3)}
+		if kind == "single" && c.Index%16 < 8 {
+			// every identity column × every shape gets its "declared in table.columns, not selected under block" cases
+			o.identity, o.userUniq = "declared-only", false
+			o.mode = (c.Index / 16) % 3
+			o.declare = c.Index / 48
+			o.arrays = (c.Index/16)%2 == 0
+			if o.mode == int(model.ModeLog) {
+				o.wantArray = o.arrays
+			}
+		} else {
+			o.declare = r.Intn(8)
+		}
+		return o
 	}
 	var decls []*model.Decl
 	switch kind {
@@ -704,6 +811,14 @@ func c16Run(c *vk.Case) {
 		c.Obs("shared_table_scenarios", 1)
 	default:
 		decls = []*model.Decl{c16Decl(r, 0, namePoolTbl[0], srcs, mkOpts())}
+	}
+	for _, d := range decls {
+		for _, ec := range d.ExtraCols {
+			if _, ok := c16AutoType[ec.Name]; ok {
+				c.Obs("declared_only_scenarios", 1)
+				c.Seen("declared_only", d.Mode().String()+":"+ec.Name)
+			}
+		}
 	}
 	chain := c16Chain(r, decls, c16ABI)
 	spec := c16Spec(r, decls, srcs, chain)
